@@ -557,7 +557,7 @@ PROPS = {
         level_text='Theorems: Reader∘Writer delivers exactly the messages written, in order, with their types, for every program — without compression unconditionally, with compression under the stated flate contract; frames parse back exactly for every program/configuration/compressor behaviour; the client\'s copy-then-mask bufio loop puts pending ++ mask(payload) on the wire for every '
                    'buffer fill state; the trim writer sends all but the last 4 bytes for any chunking; the sliding-window dictionary is the last 32 KiB for any slice sizes. Tie: model wire = tapped wire and '
                    'model delivery = library delivery on every case; judge: received = written.',
-        level_note='END-TO-END theorems: C01_roundtrip_uncompressed (no compression) and C01_roundtrip_compressed (permessage-deflate negotiated: every role, option set, threshold, program of Write / Writer / Ping / Pong operations, chunking, read-buffer sizes) — the latter under the explicit contract F0-F2 on the compressor / inflater pair, shown satisfiable by C01_contract_satisfiable. That Go\'s compress/flate satisfies F0-F2 is NOT proved: it is what the pair and wire-out suites exercise (the extracted Writer∘Reader composition runs with compress/flate as the oracle and must equal the library).',
+        level_note='Source tie by translation: C01_compression_decision_is_source / C01_threshold_is_source — a message becomes compressed exactly when msgWriter.Write (write.go, Gen/WriteCode.v) calls ensureFlate, with the threshold newConn (conn.go) computes. END-TO-END theorems: C01_roundtrip_uncompressed (no compression) and C01_roundtrip_compressed (permessage-deflate negotiated: every role, option set, threshold, program of Write / Writer / Ping / Pong operations, chunking, read-buffer sizes) — the latter under the explicit contract F0-F2 on the compressor / inflater pair, shown satisfiable by C01_contract_satisfiable. That Go\'s compress/flate satisfies F0-F2 is NOT proved: it is what the pair and wire-out suites exercise (the extracted Writer∘Reader composition runs with compress/flate as the oracle and must equal the library).',
         technique='Coq proofs (induction over chunk lists / buffer loop) + differential run of extracted Writer∘Reader vs two library endpoints',
     ),
     'C07': dict(
